@@ -36,6 +36,9 @@ META = {
  "assumptions": [
   "public = sizes/lengths (concrete per query), buffer addresses, announced bit lengths (m[0] header words), vtable pointers; secret = everything else the harness draws in c08_secret()",
   "allocas are per-site static objects and both runs use the same harness buffers, so equal (object, offset) observations mean equal addresses; recursion is refused by the translator",
+  "EC driver queries (ec_prime_i15_drv_*, ec_p256_m15_drv_*, ec_c25519_m15_drv_*): the listed callees are observation-only stubs (harness/C08_ecdrv.c, C08_ecdrv2.c): they log their pointer arguments (object+offset), lengths and bit-length header words, write unconstrained (ND) values to their outputs and return ND; the ctl arguments of br_i15_add/sub and br_ccopy are NOT logged (secret by design; br_ccopy is modelled functionally). The claim 'the driver's branches and addresses do not depend on scalar or point' therefore rests on the stubbed callees being constant-time themselves: br_i15_{add,sub,montymul,modpow,decode_mod,encode,iszero} and br_ccopy are the entry points of the i15_* / ccopy-* queries of this property; the p256_m15 field primitives and p256_double/p256_add are callees of the un-stubbed ec_p256_m15_p256_mul query (thorough tier); the c25519_m15 field primitives f255_mulgen/f255_add/f255_sub/mul20 are NOT covered un-stubbed",
+  "stubs inside the translated TU (p256_m15, c25519_m15): translation validation compares the real code with the same IR translated WITHOUT stub substitution; the stubbed file differs only by omitting the bodies of the listed functions. ec_prime_i15: stubs sit at the link seam, and the real ec_prime_i15.c linked against the same stubs is what the translated driver is validated against",
+  "entries marked online (the EC driver queries): run 1 checks each observation against run 0's log at once and then assumes it, and cbmc runs with --paths lifo (one path at a time), so that a diverged pair of paths ends at the divergence; the final log comparison is still performed",
   "IR 'select', integer multiplication and shifts are taken as constant-time; udiv/sdiv/urem/srem operands are observed (reported as 'variable-time division')",
   "queries run with --no-standard-checks (CBMC's pointer/bounds instrumentation triples symex time): memory safety of the same functions at these sizes is the obligation of C05/C09/C12; an out-of-bounds address would still be an (object, offset) observation here",
  ],
@@ -44,7 +47,7 @@ META = {
   "implementations not listed: i32, i62, ec m31/m62/m64, x86ni/pclmul/sse2/power8 intrinsics",
   "production sizes (RSA/EC operand sizes, record lengths beyond the listed ones; in particular CBC records longer than mac_len+256 bytes, where min_len = len-256: a 320-byte record did not finish in 15 min)",
   "the T0 handshake code (server handling of bad premaster / bad ECDH point)",
-  "complete EC point multiplication api_mul of ec_p256_m15 / ec_prime_i15 / ec_c25519_m15 and ECDSA/ECDH on top (translate and validate, but >10^6 observations per run: dropped); only the p256_m15 scalar-multiplication core p256_mul is covered (thorough tier)",
+  "complete EC point multiplication with real arithmetic (api_mul of ec_p256_m15 / ec_prime_i15 / ec_c25519_m15 translate and validate, but >10^6 observations per run: dropped); covered instead: the control structure of api_mul/api_mulgen over observation-only arithmetic stubs (ec_*_drv_* queries) and the un-stubbed p256_m15 core p256_mul (thorough tier); ECDSA/ECDH on top and api_muladd are not covered",
   "RSA private-key operation br_rsa_i15_private / i31 (modular exponentiation is covered only as br_i15_modpow/modpow_opt at 42..77-bit moduli with 2-byte exponents)",
  ],
  "not_covered": [],
@@ -58,6 +61,11 @@ META = {
   "caught: direct secret-indexed window look-up 'base = t2 + mwlen * bits' in br_i15_modpow_opt (src/int/i15_modpow2.c) -> i15_modpow_opt-Os-b42-w2 (address trace differs)",
   "caught: memcmp() instead of the OR-accumulating loop in br_gcm_check_tag_trunc (src/aead/gcm.c) -> gcm_check_tag-Os-n20-a7-t16 (~10 min)",
   "caught: 'if (ctl) a[u] = ...' instead of MUX in br_i15_add -> i15_add-{O0,Os,O2}-b42",
+  "caught (seeded/C08c-ec-prime-i15/patch.diff, written from the property text): point_mul of src/ec/ec_prime_i15.c skips a zero multiplier byte while the accumulator is still infinity -> ec_prime_i15_drv_mul-Os-p256-x2 VIOLATION, natively reproduced ('same branch condition ...' at the new branch; replay: first scalar byte zero in one run, non-zero in the other); ~9 min with cbmc --paths (the default path-merging symex did not finish in 10 min); the unchanged tree passes in ~65 s + witness",
+  "caught: window look-up by secret index 'memcpy(&T, W[bits], sizeof T)' with W = {P, P, &P2, &P3} instead of the two CCOPYs in point_mul of ec_prime_i15.c -> ec_prime_i15_drv_mul-Os-p256-x2 (address of the block copy differs), 3 min",
+  "caught: the same zero-byte skip in p256_mul of src/ec/ec_p256_m15.c -> ec_p256_m15_drv_mul-Os-x2, 3 min",
+  "caught: direct indexing 'Gwin[(idx + 14) % 15][u] & -NEQ(idx, 0)' in lookup_Gwin of ec_p256_m15.c -> ec_p256_m15_drv_mulgen-Os-x2 (both 'same division operands' and the address observation), 2 min",
+  "NOT decided in time: 'if (idx != 0) xy[u] = Gwin[idx - 1][u]' in lookup_Gwin (a secret branch per nibble AND a secret index) -> ec_p256_m15_drv_mulgen-Os-x2 timed out after 20 min (INCONCLUSIVE, never a pass): 2^4 x 2^4 path pairs with symbolic table indices",
  ],
 }
 
